@@ -1,6 +1,8 @@
 package main
 
 import (
+	"encoding/json"
+	"fmt"
 	"strings"
 )
 
@@ -12,6 +14,7 @@ type Tok struct {
 	A string   `json:"a"`
 	E bool     `json:"e"`
 	B string   `json:"b"`
+	C string   `json:"c"` // response code for k = "RESP"
 }
 
 // modelKind maps directive.Enumeration.String() to the specification's kind names.
@@ -90,11 +93,14 @@ func fillerBody(k string) string {
 	return ""
 }
 
-func keywordText(k string) string {
-	if k == "RESP" {
+func keywordText(t Tok) string {
+	if t.K == "RESP" {
+		if t.C != "" {
+			return t.C
+		}
 		return "200"
 	}
-	return k
+	return t.K
 }
 
 // renderTokens renders tokens in canonical layout: header line (keyword,
@@ -115,17 +121,17 @@ func renderTokens(toks []Tok, fill bool, lo layout) rendered {
 			wr(")")
 			continue
 		}
-		p := t.P
-		b := t.B
+		p := renderParams(t)
+		b := bodyText(t.B)
 		if fill {
 			fp := fillerParams(t.K, i)
 			if t.K == "GET" || t.K == "POST" || t.K == "PUT" || t.K == "PATCH" || t.K == "DELETE" {
-				fp = p // methods: the specification decides whether a path is given
+				fp = t.P // methods: the specification decides whether a path is given
 			}
 			p = fp
 			b = fillerBody(t.K)
 		}
-		h := keywordText(t.K)
+		h := keywordText(t)
 		if t.T == "I" {
 			h = "INCLUDE"
 		}
@@ -145,4 +151,76 @@ func renderTokens(toks []Tok, fill bool, lo layout) rendered {
 	}
 	r.text = sb.String()
 	return r
+}
+
+// Pools are the concrete texts behind the specification's path and body ids
+// (spec/Pools.tla); they are read from the "L" line TLC prints.
+type Pools struct {
+	Paths  map[string]string `json:"paths"`
+	Bodies map[string]string `json:"bodies"`
+}
+
+var pools Pools
+
+func loadPools(tlcOut string) error {
+	found := false
+	err := forEachEmitted(tlcOut, "L", func(js string) error {
+		found = true
+		return json.Unmarshal([]byte(js), &pools)
+	})
+	if err == nil && !found {
+		return fmt.Errorf("no pool table (L line) in %s", tlcOut)
+	}
+	return err
+}
+
+func bodyText(id string) string {
+	if id == "" {
+		return ""
+	}
+	if t, ok := pools.Bodies[id]; ok {
+		return t
+	}
+	return id
+}
+
+func pathText(id string) string {
+	if t, ok := pools.Paths[id]; ok {
+		return t
+	}
+	return id
+}
+
+// renderParams turns the abstract parameters of a token into text.
+func renderParams(t Tok) []string {
+	out := make([]string, 0, len(t.P))
+	for _, p := range t.P {
+		switch t.K {
+		case "URL", "GET", "POST", "PUT", "PATCH", "DELETE":
+			out = append(out, pathText(p))
+		case "Title", "BaseUrl", "Query":
+			out = append(out, strconvQuote(p))
+		default:
+			out = append(out, p)
+		}
+	}
+	return out
+}
+
+// the plain values the real directive must hold for the token's parameters
+func paramValues(t Tok) []string {
+	out := make([]string, 0, len(t.P))
+	for _, p := range t.P {
+		switch t.K {
+		case "URL", "GET", "POST", "PUT", "PATCH", "DELETE":
+			out = append(out, pathText(p))
+		default:
+			out = append(out, p)
+		}
+	}
+	return out
+}
+
+func strconvQuote(s string) string {
+	return `"` + strings.ReplaceAll(strings.ReplaceAll(s, `\`, `\\`), `"`, `\"`) + `"`
 }
